@@ -86,3 +86,121 @@ let () =
       ^ ";conn=" ^ b2s w'.connected ^ ";sock=" ^ (match w'.sock with Some _ -> "1" | None -> "0")
       ^ ";io=" ^ String.concat "," (List.map io_obs (all_io w'))
     | _ -> "badargs")
+
+(* ---- WebSocketApp.run_forever (untimed model) ----
+   apprun <8 callback modes><:reconnect><:skip> <attempts>
+   modes: A absent R return X raise C close K keyboard-interrupt ; order open,reconnect,message,data,error,close,ping,pong
+   attempts separated by "|": R | J<status> | E<ev,ev,...> ; ev: F<fin>.<op>:<hex> | BP | BC | BR | T | O *)
+let mode_of = function 'A' -> Absent | 'R' -> Ret | 'X' -> RaiseExc | 'C' -> CallClose | 'K' -> RaiseKbd | _ -> failwith "mode"
+let aev_of s =
+  if s = "T" then APingTimeout else if s = "O" then AOtherClose
+  else if s = "BP" then ABad Protocol else if s = "BC" then ABad ConnClosed else if s = "BR" then ABad (Transport (z_of_int 104))
+  else if s = "BY" then ABad Payload
+  else Scanf.sscanf s "F%d.%d:%s" (fun fin op h ->
+      AFrame { a_fin = z_of_int fin; a_rsv1 = Z0; a_rsv2 = Z0; a_rsv3 = Z0; a_opcode = z_of_int op; a_mask = Z0; a_data = bytes_arg h })
+let attempt_of s =
+  if s = "R" then Refused
+  else if s.[0] = 'J' then Rejected (z_of_string (String.sub s 1 (String.length s - 1)))
+  else if s = "E" then Established []
+  else Established (List.map aev_of (String.split_on_char ',' (String.sub s 1 (String.length s - 1))))
+let err_str = function
+  | EExn e -> exn_name e | ERefused -> "Refused" | ECallback -> "Callback" | EKbd -> "Kbd"
+let tev_str = function
+  | TOpen -> "open" | TReconnect -> "reconnect"
+  | TData (d, op, fin, txt) -> Printf.sprintf "data:%s:%s:%s:%s" (digest_of_bytes d) (string_of_z op) (b2s fin) (if txt then "t" else "b")
+  | TMessage (d, txt) -> Printf.sprintf "msg:%s:%s" (digest_of_bytes d) (if txt then "t" else "b")
+  | TPing d -> "ping:" ^ digest_of_bytes d | TPong d -> "pong:" ^ digest_of_bytes d
+  | TError e -> "err:" ^ err_str e
+  | TClose (c, r) -> Printf.sprintf "close:%s:%s" (match c with Some z -> string_of_z z | None -> "None")
+                       (match r with Some b -> digest_of_bytes b | None -> "None")
+  | TConnect -> "#connect" | TSockClosed -> "#sockclosed" | TCloseFrameSent -> "#closesent"
+
+let () =
+  reg "apprun" (function [cfg; atts] ->
+      (match String.split_on_char ':' cfg with
+       | [modes; rc; skip] ->
+         let m i = mode_of modes.[i] in
+         let c = { on_open = m 0; on_reconnect = m 1; on_message = m 2; on_data = m 3; on_error = m 4; on_close = m 5;
+                   on_ping = m 6; on_pong = m 7; reconnect = z_of_string rc; app_skip_utf8 = s2b skip } in
+         let env = List.map attempt_of (String.split_on_char '|' atts) in
+         let (ret, st) = run_forever c env in
+         String.concat "," (List.map tev_str st.trace) ^ ";ret=" ^ b2s ret ^ ";sock=" ^ b2s st.has_sock
+       | _ -> "badcfg")
+    | _ -> "badargs")
+
+(* ---- keepalive timing (C16): keepalive <t0> <I> <T> <ping_first> <arrivals t:P|t:D,...> <horizon> *)
+let () =
+  reg "keepalive" (function [t0; i; t; pf; arr; hz] ->
+      let arrs = list_arg (fun s -> match String.split_on_char ':' s with
+          | [tm; "P"] -> (z_of_string tm, APong) | [tm; _] -> (z_of_string tm, AData) | _ -> failwith "arr") arr in
+      let (o, st) = keepalive (z_of_string t0) (z_of_string i) (z_of_string t) (s2b pf) arrs (z_of_string hz) in
+      (match o with Detected d -> "detected:" ^ string_of_z d | Quiet -> "quiet")
+      ^ ";pings=" ^ String.concat "," (List.map string_of_z st.pings)
+    | _ -> "badargs");
+  reg "pingargs" (function [i; t] ->
+      b2s (ping_args_rejected (z_of_string i) (if t = "None" then None else Some (z_of_string t))) | _ -> "badargs")
+
+(* ---- connect(): wsconnect <url> <limit> <opts> <rand draws> <prepared script | none> <net>
+   opts: ";"-separated key=value (values hex): sub=a|b host= origin= (origin=None for an explicit None) suppress=1 cookie= conn=
+         hlist=l1|l2  hdict=k:v|k:None
+   net: "|"-separated connections, each <addr letters>/<script>;  letters: A accept, R refused, U unreachable, O<errno>. *)
+let parse_opts s =
+  let tbl = Hashtbl.create 8 in
+  if s <> "." then List.iter (fun kv ->
+      match String.index_opt kv '=' with
+      | Some i -> Hashtbl.replace tbl (String.sub kv 0 i) (String.sub kv (i + 1) (String.length kv - i - 1))
+      | None -> ()) (String.split_on_char ';' s);
+  let get k = Hashtbl.find_opt tbl k in
+  let strs v = if v = "" || v = "." then [] else List.map bytes_arg (String.split_on_char '|' v) in
+  { o_host = (match get "host" with Some v -> Some (bytes_arg v) | None -> None);
+    o_origin = (match get "origin" with Some "None" -> Some None | Some v -> Some (Some (bytes_arg v)) | None -> None);
+    o_suppress_origin = (get "suppress" = Some "1");
+    o_subprotocols = (match get "sub" with Some v -> strs v | None -> []);
+    o_cookie = (match get "cookie" with Some v -> Some (bytes_arg v) | None -> None);
+    o_header = (match get "hlist", get "hdict" with
+        | Some v, _ -> HList (strs v)
+        | None, Some v -> HDict (if v = "" || v = "." then [] else List.map (fun kv ->
+            match String.split_on_char ':' kv with
+            | [k; "None"] -> (bytes_arg k, None) | [k; v] -> (bytes_arg k, Some (bytes_arg v)) | _ -> failwith "hdict")
+            (String.split_on_char '|' v))
+        | None, None -> HNone);
+    o_connection = (match get "conn" with Some v -> Some (bytes_arg v) | None -> None) }
+let addr_of s =
+  let rec go i acc = if i >= String.length s then List.rev acc else
+      match s.[i] with
+      | 'A' -> go (i + 1) (AAccept :: acc) | 'R' -> go (i + 1) (ARefused :: acc) | 'U' -> go (i + 1) (AUnreach :: acc)
+      | 'O' -> let j = ref (i + 1) in
+        while !j < String.length s && s.[!j] >= '0' && s.[!j] <= '9' do incr j done;
+        go !j (AOther (z_of_string (String.sub s (i + 1) (!j - i - 1))) :: acc)
+      | _ -> failwith "addr" in
+  go 0 []
+let netconn_of s = match String.index_opt s '/' with
+  | Some i -> { n_addrs = addr_of (String.sub s 0 i);
+                n_script = list_arg ev_arg (String.sub s (i + 1) (String.length s - i - 1)) }
+  | None -> failwith "netconn"
+let sockev_str = function
+  | SCreate i -> "c" ^ string_of_int (int_of_nat i) | SSetTimeout i -> "t" ^ string_of_int (int_of_nat i)
+  | SSetOptsDefault i -> "d" ^ string_of_int (int_of_nat i) | SSetOptsUser i -> "u" ^ string_of_int (int_of_nat i)
+  | SConnect i -> "n" ^ string_of_int (int_of_nat i) | SCloseSock i -> "x" ^ string_of_int (int_of_nat i)
+let count_close (x : xport) = List.length (List.filter (function IClose -> true | _ -> false) x.iolog)
+let max_read (x : xport) = List.fold_left (fun m e -> match e with IRead n -> max m (int_of_z n) | _ -> m) 0 x.iolog
+
+let () =
+  reg "wsconnect" (function [url; limit; opts; rand; prepared; net] ->
+      let st0 = cs_init (list_arg bytes_arg rand) (if net = "." then [] else List.map netconn_of (String.split_on_char '|' net)) in
+      let prep = if prepared = "none" then None else Some { inbox = list_arg ev_arg prepared; iolog = [] } in
+      let (r, st) = ws_connect (bytes_arg url) (parse_opts opts) (z_of_string limit) prep st0 in
+      let xs = st.cs_released @ (match st.cs_sock with Some x -> [x] | None -> []) in
+      (match r with Ok () -> "ok" | Raise e -> "raise:" ^ exn_name e)
+      ^ ";connected=" ^ b2s st.cs_connected
+      ^ ";status=" ^ (match st.cs_status with Some z -> string_of_z z | None -> "None")
+      ^ ";sub=" ^ (match st.cs_subproto with Some s -> hex_of_bytes s | None -> "None")
+      ^ ";requests=" ^ String.concat "," (List.map (fun (r, _) -> digest_of_bytes r) st.cs_requests)
+      ^ ";closes=" ^ String.concat "," (List.map (fun x -> string_of_int (count_close x)) xs)
+      ^ ";maxread=" ^ String.concat "," (List.map (fun x -> string_of_int (max_read x)) xs)
+      ^ ";socklog=" ^ String.concat "/" (List.map (fun l -> String.concat "" (List.map sockev_str l)) st.cs_socklog)
+    | _ -> "badargs");
+  reg "parseurl" (function [u] ->
+      (match parse_url (bytes_arg u) with
+       | Ok (((h, p), r), sec) -> "ok:" ^ hex_of_bytes h ^ ":" ^ string_of_z p ^ ":" ^ hex_of_bytes r ^ ":" ^ b2s sec
+       | Raise e -> "raise:" ^ exn_name e) | _ -> "badargs")
